@@ -18,6 +18,7 @@ import (
 	"fmt"
 	"runtime"
 	"sort"
+	"syscall"
 
 	"github.com/youchainhq/go-youchain/logging"
 	"github.com/youchainhq/go-youchain/rlp"
@@ -96,8 +97,14 @@ func countNodes(b []byte) int {
 	return n
 }
 
+// memLimit bounds the address space of the driver process: a decoder that trusts a hostile size field dies with
+// "fatal error: out of memory" (recorded by the orchestrator as an abort of the behaviour) instead of zeroing gigabytes
+// per case until the run times out.
+const memLimit = 6 << 30
+
 func run(env *drive.Env) error {
 	logging.Verbosity(logging.LvlCrit)
+	syscall.Setrlimit(syscall.RLIMIT_AS, &syscall.Rlimit{Cur: memLimit, Max: memLimit})
 	if env.Opt("mode", "run") == "seeds" {
 		return seeds(env)
 	}
@@ -192,6 +199,33 @@ func decodeCase(c *codec, b []byte) (acc bool, same bool, re []byte, nre int, al
 	return acc, same, re, len(seen), alloc, target, ""
 }
 
+// streamCase decodes the FIRST value of b the way p2p.Msg.Decode and the database readers do (rlp.NewStream(r, len).Decode:
+// no check for bytes after the value) and re-encodes it: accepted, bytes consumed, re-encoding == consumed prefix.
+func streamCase(c *codec, b []byte) (acc bool, cons int, same bool, pan string) {
+	target := c.fresh()
+	r := bytes.NewReader(b)
+	var err error
+	pan = catch(func() { err = rlp.NewStream(r, uint64(len(b))).Decode(target) })
+	if pan != "" {
+		return false, 0, false, "stream decode: " + pan
+	}
+	if err != nil {
+		return false, 0, false, ""
+	}
+	cons = len(b) - r.Len()
+	same = true
+	for i := 0; i < c.nre; i++ {
+		var out []byte
+		if p := catch(func() { out, err = encode(target) }); p != "" || err != nil {
+			return true, cons, false, "stream re-encode: " + p
+		}
+		if !bytes.Equal(out, b[:cons]) {
+			same = false
+		}
+	}
+	return true, cons, same, ""
+}
+
 func genericAccepts(b []byte) (ok bool, pan string) {
 	pan = catch(func() {
 		var v interface{}
@@ -230,7 +264,12 @@ func runBehaviour(env *drive.Env, w *world, beh *behaviour) {
 		if pan == "" && gpan != "" {
 			pan = "generic: " + gpan
 		}
+		sacc, scons, ssame, span := streamCase(c, b)
+		if pan == "" && span != "" {
+			pan = span
+		}
 		ev := map[string]interface{}{"ev": "dec", "ty": c.name, "b": ints(b), "mut": mut, "acc": acc, "same": same, "re": ints(re), "nre": nre,
+			"sacc": sacc, "scons": scons, "ssame": ssame,
 			"gacc": gacc, "alloc": alloc, "pan": pan, "cex": cex, "ent": w.entries(c.name, b)}
 		env.Emit(ev)
 	}
@@ -243,7 +282,11 @@ func runBehaviour(env *drive.Env, w *world, beh *behaviour) {
 		for i := 0; i < beh.Rnd; i++ {
 			m := append([]byte{}, enc1...)
 			var lab string
-			switch g.n(4) {
+			switch g.n(5) {
+			case 4: // random bytes behind a plausible first byte
+				m = g.bytes(1 + g.n(80))
+				m[0] = []byte{0xc0, 0xc1, 0xd5, 0xf7, 0xf8, 0xf9, 0x80, 0xa0, 0xb8, 0x7f}[g.n(10)] + byte(g.n(3))
+				lab = "rndbytes"
 			case 0, 1:
 				p := g.n(len(m))
 				m[p] ^= 1 << uint(g.n(8))
